@@ -23,9 +23,10 @@ def prop(pid, rules, cfgs_quick, explanation, technique, not_decided, cfgs_thoro
 
 
 prop("C02",
-     [("S1", S.S1, K01, {}), ("S2", S.S2, K01, {}), ("S3", S.S3, K01, {}), ("S4", S.S4, K01, {}), ("S5", S.S5, K01, {})],
+     [("S1", S.S1, K01, {}), ("S2", S.S2, K01, {}), ("S3", S.S3, K01, {}), ("S4", S.S4, K01, {}), ("S5", S.S5, K01, {}),
+      ("L2", lambda ctx: __import__("rules_run").L2(ctx), K01, {})],
      K01,
-     "Decides the scheduler premises S1-S5 on the MIR of every streaming path: counts/structure pairing chain "
+     "Decides the scheduler premises S1-S5 (and L2: each fold step returns its state only after the user future's Ready arm) on the MIR of every streaming path: counts/structure pairing chain "
      "(in-degree with forward structure, out-degree with reversed structure, build() orientation, StreamOpts::rev/default), "
      "sole ready-sends (preload of zero-count ids, release guarded by COUNTS[child]==0 after its decrement), sole count writes "
      "(-=1 once per child of the id received from DONE, no early exit), done-send dominated by the Ready arm of the user "
@@ -34,7 +35,8 @@ prop("C02",
      "the induction along a topological order (paper); correctness of futures' fold/for_each_concurrent/join! and tokio channels")
 
 prop("C03",
-     [("S2", S.S2, K01, {}), ("S3", S.S3, K01, {}), ("S6", S.S6, K01, {})],
+     [("S2", S.S2, K01, {}), ("S3", S.S3, K01, {}), ("S6", S.S6, K01, {}),
+      ("M1", lambda ctx: __import__("rules_run").C03_mut_lookup(ctx), K01, {})],
      K01,
      "Decides S2 (each ready-send is the preload of all zero-count nodes or the release at count==0 after the decrement), "
      "S3 (counts only decrease by one per predecessor edge) and S6 (channel capacities are monotone in node_count so try_send never drops an id).",
@@ -62,6 +64,7 @@ prop("C05",
      "tokio's poll_recv waker contract (trusted; Ready(Some) registers no waker)")
 
 import rules_build as B
+import rules_run as R
 
 K0 = ("K0",)
 
@@ -79,9 +82,10 @@ prop("C01",
      "that the pairwise scan + has_path_connecting joins every conflicting pair for every DAG (functional correctness of the scan), and the schedule-level behaviour")
 
 prop("C06",
-     [("W1", B.W1, K0, {}), ("W2", B.W2, K0, {}), ("R1", B.R1, K0, {}), ("S2", S.S2, K01, {}), ("S3", S.S3, K01, {})],
+     [("W1", B.W1, K0, {}), ("W2", B.W2, K0, {}), ("R1", B.R1, K0, {}), ("S2", S.S2, K01, {}), ("S3", S.S3, K01, {}),
+      ("L1", lambda ctx: __import__("rules_run").L1(ctx), K01, {})],
      K01,
-     "Decides W1 (the only edge-adding call on the user's graph reachable from build() is update_edge with the constant Edge::Data, "
+     "Decides W4 = L1 (limit forwarded unchanged, so None gates nothing), W1 (the only edge-adding call on the user's graph reachable from build() is update_edge with the constant Edge::Data, "
      "no other node/edge-set mutator), W2 (the comparison pairs feeding its guard contain no read x read pair and no same-function pair; "
      "expected-zero rule with a seeded positive control in the self-test), the guard being exactly the disjunction of the comparisons (R1 truth table), "
      "and W3 = S2/S3 (every successor reaching count 0 is queued in the same visit; the release walk has no early exit).",
@@ -135,3 +139,60 @@ prop("C18",
      "visited flag, or a counter reaching zero after its decrement), which bounds re-queues per node by the number of distinct values (<= n).",
      "MIR loop inventory (natural loops, worklist classification) + control dependence of queue pushes",
      "constants; the dependency calls' own complexity (has_path_connecting, update_edge, stable sort assumed polynomial)")
+
+
+prop("C07",
+     [("F", R.F_rules, K01, {}), ("S6", S.S6, K01, {}), ("T1", T.T1, K01, {})],
+     K01,
+     "Decides F1 (on the Err arm of the user future exactly one awaited send on the RESULT channel carries that error), F2 (from the Err arm every "
+     "path to the done-send passes through the release of the done-sender), F3 (RESULT capacity monotone in node_count; its receiver is drained only "
+     "after the join; Err((outcome, errors)) iff the collected vector is non-empty, unchanged), F4 (control adapters map Continue->Ok, Break(e)->Err(e)), "
+     "F5 (try-fold: the step's Err value is the user's error via `?` and no callback is reachable after it), plus T1.FAILED.",
+     "MIR must-pass-through (dominance/path) analysis from the Err arm + provenance of error values with failure-tagged access paths",
+     "that already started futures complete (contract of for_each_concurrent, trusted)")
+
+prop("C08",
+     [("I", R.I_rules, ("K1",), {}), ("S5", S.S5, ("K1",), {}), ("T1", T.T1, ("K1",), {})],
+     ("K1",),
+     "Decides the wiring only: I1 (opts.interruptibility_state and interrupted_next_item_include flow unchanged from each public parameter - or from "
+     "StreamOpts::default() - to the ready-stream wrapper; stream_with_interruptible passes the state to interruptible_with, stream/stream_with do not wrap), "
+     "I2 (the include flag selects between wrapping the tracking stream and wrapping the raw receiver followed by a filter whose Interrupted arm clears the id "
+     "and does not record it), I3 (interrupt mapping Interrupted(x)->(x,true), NoInterrupt(x)->(Some(x),false)), I4 = T1.INTERRUPTED, I5 = S5 (the ready stream is the only source of ids).",
+     "MIR taint of option fields from public parameters to sinks + control dependence in the wrapper",
+     "THE NUMERIC BOUNDS THEMSELVES (<= 1 / <= n more, pending-signal cases, PollNextN(0)): they are the state machine of interruptible::InterruptibleStream in another crate; fn_graph only wires it")
+
+prop("C09",
+     [("O", R.O_rules, K01, {}), ("S5", S.S5, K01, {})],
+     K01,
+     "Decides O1 (the only pushes to fn_ids_processed happen in the ready-stream adaptors, with the id dequeued from READY, once per dequeue, not in per-item bodies), "
+     "O2 (StreamOutcome::new stores processed/state unchanged and computes not-processed as the node-order filter !processed.contains(id) over all nodes of the walked structure; "
+     "every call site passes the tracked vector and the walked structure), O3 (0 -> Finished, else Interrupted, argument derived from the node_count countdown), "
+     "O4 (the four control wrappers map Ok+Finished -> Continue, Ok+other -> Break((outcome, [])), Err(x) -> Break(x)).",
+     "MIR provenance of pushed ids / constructor arguments + control dependence of the ControlFlow aggregates",
+     "the order claim beyond `push happens at dequeue`")
+
+prop("C10",
+     [("L1", R.L1, K01, {}), ("L2", R.L2, K01, {})],
+     K01,
+     "Decides L1 (`limit` flows unchanged from each of the 12 public parameters into StreamExt::for_each_concurrent's limit argument, whose stream is the READY stream) "
+     "and L2 (fold/try_fold paths are driven by StreamExt::fold / TryStreamExt::try_fold and return their state only after the user future's Ready arm).",
+     "MIR taint from public parameters to the adaptor's argument + must-pass-through of the await's Ready arm",
+     "the in-flight count of for_each_concurrent (futures' contract); `any limit >= 1 completes` beyond S4")
+
+prop("C14",
+     [("Q", R.Q_rules, ("K0", "K4"), {})],
+     ("K0", "K4"),
+     "Decides Q1 (each of iter, iter_rev, toposort, map, fold, try_fold, for_each, try_for_each creates and steps Topo with the same graph), Q2 (forward APIs walk a "
+     "forward-role graph, iter_rev the reversed structure; roles from build()), Q3 (the id produced by Topo indexes self.graph unchanged), Q4 (try_fold/try_for_each return the "
+     "callback's first error and no callback is reachable after it), Q5 (iter_insertion* return node_references()/node_weights_mut() of self.graph unmodified).",
+     "MIR provenance equality of Topo::new / Topo::next graph arguments + structure roles from build()",
+     "petgraph::Topo's contract (exactly once, topological)")
+
+prop("C17",
+     [("G", R.G_rules, ("K2",), {})],
+     ("K2",),
+     "Decides G1 (nodes from iter_insertion() in order, each mapped by the caller's function, one unconditional add_node each), G2 (edges from raw_edges() in order mapped to "
+     "(source(), target(), weight) with no filter, into add_edges), G3 (GraphInfo, Edge, FnIdInner implement both Serialize and Deserialize; serialisability for all NodeInfo by the witness crate), "
+     "G4 (iter uses Topo over graph for construction and stepping, iter_rev over Reversed(graph)), G5 (== compares node weights and source/target/weight of every edge).",
+     "MIR iterator-chain inventory + expression reconstruction of the mapped tuple + impl table",
+     "value-level round-trip equality through a concrete format (serde/daggy/serde_yaml_ng behaviour)")
